@@ -10,7 +10,11 @@ A *spec* is a JSON-able description of a manifest and of the way it is built thr
      "compose":  {"id", "type", "date", "respin", "label", "final"},
      "pool":     [ {15 attributes}, ... ]               image OBJECTS; the index is the object's identity
      "adds":     [ [variant, arch, pool index], ... ]   Images.add calls in this order; an index may occur in several
-                                                        cells (the same object filed several times)}
+                                                        cells (the same object filed several times)
+     "edits":    [ ["discard", v, a, idx] | ["clear", v, a] | ["del_variant", v] | ["del_arch", v, a] | ["add", v, a, idx], ... ]   (optional)
+                                                        applied after the adds through the public containers
+                                                        (images[v][a].discard(obj) / .clear(), del images[v], del images[v][a], add):
+                                                        buckets may end up EMPTY (an empty set, a variant without arches)}
 
     gen(rng, tier, **opts) -> spec           mostly-valid manifests per the quantifier of C02
     gen_image(rng, k, ...) -> dict           one image (15 attributes), k-th of the round-robin over type x format
@@ -211,6 +215,21 @@ def build(spec, strict=True):
         except ValueError:
             if strict:
                 raise
+    for e in spec.get("edits", ()):
+        if e[0] == "discard":
+            m[e[1]][e[2]].discard(objs[e[3]])
+        elif e[0] == "clear":
+            m[e[1]][e[2]].clear()
+        elif e[0] == "del_variant":
+            del m[e[1]]
+        elif e[0] == "del_arch":
+            del m[e[1]][e[2]]
+        elif e[0] == "add":
+            try:
+                m.add(e[1], e[2], objs[e[3]])
+            except ValueError:
+                if strict:
+                    raise
     return m, objs
 
 
@@ -231,23 +250,87 @@ def snap(m):
             "images": snap_cells(m.images)}
 
 
-def cells_of_adds(pool, adds):
-    """{variant: {arch: [pool indices in insertion order, each once]}} - what Images.add builds"""
+def cells_of_adds(pool, adds, edits=()):
+    """{variant: {arch: [pool indices in insertion order, each once]}} - what Images.add and the edits build;
+    empty buckets are kept (an emptied set stays in the dict)"""
     cells = {}
-    for v, a, idx in adds:
+    def add(v, a, idx):
         c = cells.setdefault(v, {}).setdefault(a, [])
         if idx not in c:
             c.append(idx)
+    for v, a, idx in adds:
+        add(v, a, idx)
+    for e in edits:
+        if e[0] == "discard":
+            if e[3] in cells[e[1]][e[2]]:
+                cells[e[1]][e[2]].remove(e[3])
+        elif e[0] == "clear":
+            del cells[e[1]][e[2]][:]
+        elif e[0] == "del_variant":
+            del cells[e[1]]
+        elif e[0] == "del_arch":
+            del cells[e[1]][e[2]]
+        elif e[0] == "add":
+            add(e[1], e[2], e[3])
     return cells
 
 
-def expected_snapshot(spec):
-    cells = cells_of_adds(spec["pool"], spec["adds"])
+def valid_edits(pool, adds, edits):
+    """the edits that can still be applied (used when a spec is shrunk)"""
+    out = []
+    for e in edits:
+        try:
+            cells_of_adds(pool, adds, out + [e])
+            out.append(e)
+        except (KeyError, IndexError):
+            pass
+    return out
+
+
+def cells_of_spec(spec):
+    return cells_of_adds(spec["pool"], spec["adds"], spec.get("edits", ()))
+
+
+def gen_edits(rng, spec, n=None):
+    """edits through the public containers, valid for the spec (tracked on the emulated cells): removing single
+    images, ALL images of a cell, whole variants, and re-adding"""
+    edits = []
+    for _ in range(rng.randint(1, 4) if n is None else n):
+        cells = cells_of_adds(spec["pool"], spec["adds"], edits)
+        buckets = [(v, a) for v, d in cells.items() for a in d]
+        r = rng.random()
+        if buckets and r < 0.45:
+            v, a = rng.choice(buckets)
+            c = cells[v][a]
+            if c and rng.random() < 0.6:
+                for idx in (list(c) if rng.random() < 0.5 else [rng.choice(c)]):       # all images of the cell, or one
+                    edits.append(["discard", v, a, idx])
+            else:
+                edits.append(["clear", v, a])
+        elif cells and r < 0.55:
+            edits.append(["del_variant", rng.choice(list(cells))])
+        elif buckets and r < 0.65:
+            edits.append(["del_arch"] + list(rng.choice(buckets)))       # may leave a variant without arches
+        elif spec["pool"]:
+            idx = rng.randrange(len(spec["pool"]))
+            v, a = rng.choice(buckets) if buckets and rng.random() < 0.7 else (rng.choice(VARIANTS), "x86_64")
+            if all(not (spec["pool"][i]["path"] == spec["pool"][idx]["path"] and i != idx) for i in cells.get(v, {}).get(a, [])):
+                edits.append(["add", v, a, idx])
+    return edits
+
+
+def expected_snapshot(spec, keep_empty=False):
+    """the records per (variant, arch) the spec describes; empty buckets are dropped unless keep_empty (a written and
+    re-read manifest has no empty bucket: the writer emits nothing for them)"""
+    cells = cells_of_spec(spec)
+    if not keep_empty:
+        cells = dict((v, dict((a, c) for a, c in d.items() if c)) for v, d in cells.items())
+        cells = dict((v, d) for v, d in cells.items() if d)
     return dict((v, dict((a, sorted((copy.deepcopy(spec["pool"][i]) for i in c), key=rec_key)) for a, c in d.items())) for v, d in cells.items())
 
 
 def model_state(spec, version=None):
-    cells = cells_of_adds(spec["pool"], spec["adds"])
+    cells = cells_of_spec(spec)
     return {"version": spec["version"] if version is None else version, "compose": enc(spec["compose"]),
             "cells": [[v, [[a, [[i, enc(spec["pool"][i])] for i in c]] for a, c in d.items()]] for v, d in cells.items()]}
 
@@ -286,7 +369,7 @@ def doc_of_spec(spec, version="1.2", keep_defaults=False):
     """the document a writer of format `version` would produce for the spec, written out without library code
     (used to make documents with injected collisions / older headers); keep_defaults: also write unified /
     additional_variants when not unified (the reader accepts both spellings)"""
-    cells = cells_of_adds(spec["pool"], spec["adds"])
+    cells = cells_of_spec(spec)
     images = {}
     for v, d in cells.items():
         for a, c in d.items():
@@ -296,7 +379,8 @@ def doc_of_spec(spec, version="1.2", keep_defaults=False):
                 if not r.get("unified") and not keep_defaults:
                     r.pop("unified", None); r.pop("additional_variants", None)
                 recs.append(r)
-            images.setdefault(v, {})[a] = sorted(recs, key=lambda r: r["path"])
+            if recs:                                       # the writer emits nothing for an empty bucket
+                images.setdefault(v, {})[a] = sorted(recs, key=lambda r: r["path"])
     comp = dict((k, spec["compose"][k]) for k in ("id", "type", "date", "respin"))
     if spec["compose"].get("label"):
         comp["label"] = spec["compose"]["label"]; comp["final"] = spec["compose"]["final"]
